@@ -1,7 +1,19 @@
-//! C15: id / flag codecs round-trip and their parsers are total.
+//! C15: id / flag / traceparent codecs round-trip and their parsers are total.
 #[cfg(not(kani))]
 use crate::kani;
 use emit::span::{SpanId, TraceId};
+use emit_traceparent::{TraceFlags, Traceparent};
+
+fn is_hex(b: u8) -> bool {
+    matches!(b, b'0'..=b'9' | b'a'..=b'f' | b'A'..=b'F')
+}
+fn lower(b: u8) -> u8 {
+    if b >= b'A' && b <= b'Z' {
+        b + 32
+    } else {
+        b
+    }
+}
 
 /// to_hex . try_from_hex_slice = id, for every non-zero u128 (loops bounded by the 32 hex digits).
 #[cfg_attr(kani, kani::proof)]
@@ -27,5 +39,148 @@ pub(crate) fn c15_span_id_hex_roundtrip() {
     let back = SpanId::try_from_hex_slice(&hex);
     assert!(back.is_ok());
     assert!(back.unwrap().to_u64() == v);
+    kani::cover!(true);
+}
+
+/// try_from_hex_slice is total on EVERY byte slice of length 0..=33 and accepts exactly 32 hex digits that are
+/// not all zero; an accepted text formats back to its lower-cased self.
+#[cfg_attr(kani, kani::proof)]
+#[cfg_attr(kani, kani::unwind(35))]
+pub(crate) fn c15_trace_id_parse_total() {
+    let buf: [u8; 33] = kani::any();
+    let len: usize = kani::any();
+    kani::assume(len <= 33);
+    let r = TraceId::try_from_hex_slice(&buf[..len]);
+    let mut all_hex = true;
+    let mut all_zero = true;
+    let mut i = 0;
+    while i < 32 {
+        if i < len {
+            if !is_hex(buf[i]) {
+                all_hex = false;
+            }
+            if buf[i] != b'0' {
+                all_zero = false;
+            }
+        }
+        i += 1;
+    }
+    assert!(r.is_ok() == (len == 32 && all_hex && !all_zero));
+    if let Ok(id) = r {
+        let out = id.to_hex();
+        let mut i = 0;
+        while i < 32 {
+            assert!(out[i] == lower(buf[i]));
+            i += 1;
+        }
+    }
+    kani::cover!(true);
+}
+
+#[cfg_attr(kani, kani::proof)]
+#[cfg_attr(kani, kani::unwind(19))]
+pub(crate) fn c15_span_id_parse_total() {
+    let buf: [u8; 17] = kani::any();
+    let len: usize = kani::any();
+    kani::assume(len <= 17);
+    let r = SpanId::try_from_hex_slice(&buf[..len]);
+    let mut all_hex = true;
+    let mut all_zero = true;
+    let mut i = 0;
+    while i < 16 {
+        if i < len {
+            if !is_hex(buf[i]) {
+                all_hex = false;
+            }
+            if buf[i] != b'0' {
+                all_zero = false;
+            }
+        }
+        i += 1;
+    }
+    assert!(r.is_ok() == (len == 16 && all_hex && !all_zero));
+    if let Ok(id) = r {
+        let out = id.to_hex();
+        let mut i = 0;
+        while i < 16 {
+            assert!(out[i] == lower(buf[i]));
+            i += 1;
+        }
+    }
+    kani::cover!(true);
+}
+
+/// TraceFlags: all 256 values round-trip through their 2 hex digits; is_sampled is bit 0.
+#[cfg_attr(kani, kani::proof)]
+pub(crate) fn c15_trace_flags_roundtrip() {
+    let v: u8 = kani::any();
+    let f = TraceFlags::from_u8(v);
+    assert!(f.to_u8() == v);
+    assert!(f.is_sampled() == (v & 1 == 1));
+    let hex = f.to_hex();
+    assert!(is_hex(hex[0]) && is_hex(hex[1]) && lower(hex[0]) == hex[0] && lower(hex[1]) == hex[1]);
+    let back = TraceFlags::try_from_hex_slice(&hex);
+    assert!(back.is_ok());
+    assert!(back.unwrap().to_u8() == v);
+    kani::cover!(true);
+}
+
+fn any_ascii_55() -> [u8; 55] {
+    let buf: [u8; 55] = kani::any();
+    let mut i = 0;
+    while i < 55 {
+        kani::assume(buf[i] < 128);
+        i += 1;
+    }
+    buf
+}
+
+/// Traceparent::try_from_str on EVERY 55-byte ASCII text: no panic; accepted => version `00`, `-` at 2/35/52,
+/// hex digits everywhere else.
+#[cfg_attr(kani, kani::proof)]
+#[cfg_attr(kani, kani::unwind(57))]
+pub(crate) fn c15_traceparent_parse_shape() {
+    let buf = any_ascii_55();
+    let s = core::str::from_utf8(&buf).unwrap();
+    if Traceparent::try_from_str(s).is_ok() {
+        assert!(buf[0] == b'0' && buf[1] == b'0');
+        assert!(buf[2] == b'-' && buf[35] == b'-' && buf[52] == b'-');
+        let mut i = 3;
+        while i < 55 {
+            if i != 35 && i != 52 {
+                assert!(is_hex(buf[i]));
+            }
+            i += 1;
+        }
+    }
+    kani::cover!(true);
+}
+
+/// ... and the ids / flags an accepted traceparent carries are the ones the text denotes (lower-cased).
+#[cfg_attr(kani, kani::proof)]
+#[cfg_attr(kani, kani::unwind(57))]
+pub(crate) fn c15_traceparent_parse_values() {
+    let buf = any_ascii_55();
+    let s = core::str::from_utf8(&buf).unwrap();
+    if let Ok(tp) = Traceparent::try_from_str(s) {
+        if let Some(t) = tp.trace_id() {
+            let out = t.to_hex();
+            let mut i = 0;
+            while i < 32 {
+                assert!(out[i] == lower(buf[3 + i]));
+                i += 1;
+            }
+        }
+        if let Some(sid) = tp.span_id() {
+            let out = sid.to_hex();
+            let mut i = 0;
+            while i < 16 {
+                assert!(out[i] == lower(buf[36 + i]));
+                i += 1;
+            }
+        }
+        let fl = tp.trace_flags().to_hex();
+        assert!(fl[0] == lower(buf[53]) && fl[1] == lower(buf[54]));
+    }
     kani::cover!(true);
 }
